@@ -261,9 +261,12 @@ fn ser_children(
     let all_block = !nodes.is_empty() && nodes.iter().all(is_block_node);
     let gaps_ok = blockish_container && !in_pre;
     let mut i = 0;
+    // an element whose optional end tag was omitted swallows what follows it,
+    // so no gap may be written right after it
+    let mut prev_open = false;
     while i < nodes.len() {
         let n = &nodes[i];
-        if gaps_ok {
+        if gaps_ok && !prev_open {
             let prev_block = if i == 0 {
                 all_block
             } else {
@@ -292,18 +295,20 @@ fn ser_children(
                 }
                 out.push_str("</span>");
                 i = j;
+                prev_open = false;
                 continue;
             }
         }
-        ser_node(n, fmt, out, depth, in_pre);
+        prev_open = ser_node(n, fmt, out, depth, in_pre);
         i += 1;
     }
-    if gaps_ok && all_block {
+    if gaps_ok && all_block && !prev_open {
         emit_gap(fmt, out, depth.saturating_sub(1));
     }
 }
 
-fn ser_node(n: &Node, fmt: &mut Fmt, out: &mut String, depth: usize, in_pre: bool) {
+/// Returns true if the node is an element whose end tag was omitted.
+fn ser_node(n: &Node, fmt: &mut Fmt, out: &mut String, depth: usize, in_pre: bool) -> bool {
     match n {
         Node::Word(w) => escape_text(w, out),
         Node::Space => {
@@ -319,11 +324,12 @@ fn ser_node(n: &Node, fmt: &mut Fmt, out: &mut String, depth: usize, in_pre: boo
             out.push_str(c);
             out.push_str("-->");
         }
-        Node::El(e) => ser_el(e, fmt, out, depth, in_pre),
+        Node::El(e) => return ser_el(e, fmt, out, depth, in_pre),
     }
+    false
 }
 
-fn ser_el(e: &El, fmt: &mut Fmt, out: &mut String, depth: usize, in_pre: bool) {
+fn ser_el(e: &El, fmt: &mut Fmt, out: &mut String, depth: usize, in_pre: bool) -> bool {
     out.push('<');
     if fmt.tag_style && fmt.chance(1, 10) {
         out.push_str(&e.tag.to_ascii_uppercase());
@@ -349,7 +355,7 @@ fn ser_el(e: &El, fmt: &mut Fmt, out: &mut String, depth: usize, in_pre: bool) {
     }
     out.push('>');
     if is_void(&e.tag) {
-        return;
+        return false;
     }
     let pre = in_pre || e.tag == "pre";
     if e.tag == "pre" {
@@ -362,11 +368,12 @@ fn ser_el(e: &El, fmt: &mut Fmt, out: &mut String, depth: usize, in_pre: bool) {
     if fmt.tag_style && end_tag_optional(&e.tag) && fmt.chance(1, 3) {
         // omitted end tag (the generator only puts these where the next thing is
         // a sibling of the same family or the parent's end tag)
-        return;
+        return true;
     }
     out.push_str("</");
     out.push_str(&e.tag);
     out.push('>');
+    false
 }
 
 // ---------------------------------------------------------------------------
